@@ -165,7 +165,7 @@ macro_rules! generic_for {
                 Some(std::cmp::Ordering::Equal) => "eq",
                 None => "none",
             };
-            ev["res"] = json!({"cmp": c, "lt": a < b, "le": a <= b, "gt": a > b, "ge": a >= b, "eq": a == b});
+            ev["res"] = json!({"cmp": c, "lt": a < b, "le": a <= b, "gt": a > b, "ge": a >= b, "eq": a == b, "ne": a != b});
         }
         "iv.make" => {
             let path = case["path"].as_str().unwrap();
@@ -277,7 +277,14 @@ fn eqhash(case: &Value, ty: &str) -> Value {
         ($t:ty) => {{
             let a: Interval<$t> = mk(&case["a"], n, ty);
             let b: Interval<$t> = mk(&case["b"], n, ty);
-            json!({"eq": a == b, "ne": a != b, "has_hash": true, "hash_eq": hash_of(&a) == hash_of(&b),
+            // copies made INTO an existing value (Clone::clone_from, what Vec / Option use when re-filling)
+            let mut c = a.clone();
+            c.clone_from(&b);
+            let mut d = b.clone();
+            d.clone_from(&a);
+            let cf = c == b && d == a && format!("{:?}", c) == format!("{:?}", b) && format!("{:?}", d) == format!("{:?}", a)
+                && hash_of(&c) == hash_of(&b) && hash_of(&d) == hash_of(&a);
+            json!({"eq": a == b, "ne": a != b, "has_hash": true, "hash_eq": hash_of(&a) == hash_of(&b), "clone_from_ok": cf,
                    "ha": format!("{:016x}", hash_of(&a)), "hb": format!("{:016x}", hash_of(&b))})
         }};
     }
@@ -290,7 +297,12 @@ fn eqhash(case: &Value, ty: &str) -> Value {
         _ => {
             let a: Interval<f64> = mk(&case["a"], n, ty);
             let b: Interval<f64> = mk(&case["b"], n, ty);
-            json!({"eq": a == b, "ne": a != b, "has_hash": false})
+            let mut c = a.clone();
+            c.clone_from(&b);
+            let mut d = b.clone();
+            d.clone_from(&a);
+            let cf = c == b && d == a && format!("{:?}", c) == format!("{:?}", b) && format!("{:?}", d) == format!("{:?}", a);
+            json!({"eq": a == b, "ne": a != b, "has_hash": false, "clone_from_ok": cf})
         }
     }
 }
